@@ -2,6 +2,8 @@
   Evaluation of protocol requests against the model (DESIGN.md A.3).
 -/
 import OptreeModel.Model.Sexp
+import OptreeModel.Model.Serial
+import OptreeModel.Generated.Hash
 
 namespace Optree
 open Sexp
@@ -67,6 +69,33 @@ instance : Monad Res where
     | .err e => .err e
     | .ok a => f a
 
+/-- node / leaf function menus of `transform` (mirrored in harness/run_impl.py) -/
+def leafSpecOf (sp : Spec) : Spec := { nodes := [Node.leaf], noneIsLeaf := sp.noneIsLeaf, ns := "" }
+
+def fnodeMenu (cfgReg : Registry) : Nat → Option (Option (Spec → Except Err Spec))
+  | 0 => some Option.none
+  | 1 => some (some fun s => .ok s)
+  | 2 => some (some fun s =>       -- tuple of leaves with the same arity
+      makeFromCollection { noneIsLeaf := s.noneIsLeaf, reg := cfgReg }
+        (.tuple (List.replicate s.numChildren (leafSpecOf s))))
+  | 3 => some (some fun _ => .error .type_)                  -- returns a non-treespec
+  | 4 => some (some fun s =>       -- one child too many
+      makeFromCollection { noneIsLeaf := s.noneIsLeaf, reg := cfgReg }
+        (.list (List.replicate (s.numChildren + 1) (leafSpecOf s))))
+  | 5 => some (some fun s => .ok { s with noneIsLeaf := !s.noneIsLeaf })
+  | _ => Option.none
+
+def fleafMenu (arg : Option Spec) : Nat → Option (Option (Spec → Except Err Spec))
+  | 0 => some Option.none
+  | 1 => some (some fun s => .ok s)
+  | 2 => match arg with
+      | some a => some (some fun _ => .ok a)
+      | Option.none => Option.none
+  | 3 => some (some fun s => .ok (makeNone s.noneIsLeaf))
+  | 4 => some (some fun _ => .error .type_)
+  | _ => Option.none
+
+mutual
 partial def evalSpec (st : DriverState) : Sexp → Res Spec
   | .list [.atom "structure", cfg, tree] => do
       let cfg ← Res.ofDec (decCfg st cfg)
@@ -80,7 +109,87 @@ partial def evalSpec (st : DriverState) : Sexp → Res Spec
   | .list [.atom "onelevel", s] => do
       let sp ← evalSpec st s
       Res.ofExcept (oneLevel sp)
+  | .list [.atom "compose", a, b] => do
+      let a ← evalSpec st a
+      let b ← evalSpec st b
+      Res.ofExcept (compose a b)
+  | .list [.atom "bcast", a, b] => do
+      let a ← evalSpec st a
+      let b ← evalSpec st b
+      Res.ofExcept (broadcast a b)
+  | .list [.atom "pickle", a] => do
+      let a ← evalSpec st a
+      let p ← Res.ofExcept (toPickle a)
+      Res.ofExcept (fromPickle st.reg p)
+  | .list [.atom "leafspec", nil] => do
+      let nil ← Res.ofDec (decBool nil)
+      pure (makeLeaf nil)
+  | .list [.atom "nonespec", nil] => do
+      let nil ← Res.ofDec (decBool nil)
+      pure (makeNone nil)
+  | .list [.atom "transform", s, fn, fl] => do
+      let sp ← evalSpec st s
+      let fn ← Res.ofDec (decNat fn)
+      let fl ← Res.ofDec (decNat fl)
+      match fnodeMenu st.reg fn, fleafMenu Option.none fl with
+      | some f, some g => Res.ofExcept (transform sp f g)
+      | _, _ => .bad "function menu"
+  | .list [.atom "transform", s, fn, fl, arg] => do
+      let sp ← evalSpec st s
+      let fn ← Res.ofDec (decNat fn)
+      let fl ← Res.ofDec (decNat fl)
+      let arg ← evalSpec st arg
+      match fnodeMenu st.reg fn, fleafMenu (some arg) fl with
+      | some f, some g => Res.ofExcept (transform sp f g)
+      | _, _ => .bad "function menu"
+  | .list [.atom "fromcoll", cfg, coll] => do
+      let cfg ← Res.ofDec (decCfg st cfg)
+      let c ← evalColl st coll
+      Res.ofExcept (makeFromCollection cfg c)
   | _ => .bad "spec expression expected"
+
+partial def evalSpecs (st : DriverState) : List Sexp → Res (List Spec)
+  | [] => pure []
+  | x :: xs => do
+      let a ← evalSpec st x
+      let as ← evalSpecs st xs
+      pure (a :: as)
+
+partial def evalSpecKVs (st : DriverState) : List Sexp → Res (List (Key × Spec))
+  | [] => pure []
+  | .list [k, v] :: xs => do
+      let k ← Res.ofDec (decKey k)
+      let v ← evalSpec st v
+      let rest ← evalSpecKVs st xs
+      pure ((k, v) :: rest)
+  | _ => .bad "key-spec pair expected"
+
+partial def evalColl (st : DriverState) : Sexp → Res Coll
+  | .atom "cN" => pure .none
+  | .list [.atom "cX"] => pure .leafObj
+  | .list [.atom "cBAD"] => pure (.badChild .tuple)
+  | .list (.atom "cT" :: xs) => do let cs ← evalSpecs st xs; pure (.tuple cs)
+  | .list (.atom "cl" :: xs) => do let cs ← evalSpecs st xs; pure (.list cs)
+  | .list (.atom "cD" :: xs) => do let kvs ← evalSpecKVs st xs; pure (.dict kvs)
+  | .list (.atom "cO" :: xs) => do let kvs ← evalSpecKVs st xs; pure (.odict kvs)
+  | .list (.atom "cDD" :: f :: xs) => do
+      let f ← Res.ofDec (decOptNat f); let kvs ← evalSpecKVs st xs; pure (.ddict f kvs)
+  | .list (.atom "cQ" :: m :: xs) => do
+      let m ← Res.ofDec (decOptNat m); let cs ← evalSpecs st xs
+      -- `deque(iterable, maxlen)` truncates before the engine sees it
+      let cs' := match m with
+        | Option.none => cs
+        | some n => cs.drop (cs.length - n)
+      pure (.deque m cs')
+  | .list (.atom "cNT" :: c :: xs) => do
+      let c ← Res.ofDec (decNat c); let cs ← evalSpecs st xs; pure (.ntuple c cs)
+  | .list (.atom "cSS" :: c :: xs) => do
+      let c ← Res.ofDec (decNat c); let cs ← evalSpecs st xs; pure (.sseq c cs)
+  | .list (.atom "cU" :: c :: m :: q :: xs) => do
+      let c ← Res.ofDec (decNat c); let m ← Res.ofDec (decOptKey m); let q ← Res.ofDec (decQuirk q)
+      let cs ← evalSpecs st xs; pure (.user c m q cs)
+  | _ => .bad "collection expected"
+end
 
 /-! ### requests -/
 
@@ -155,6 +264,32 @@ def evalOp (st : DriverState) : Sexp → Res Sexp
       let ts ← Res.ofDec (decList decObj trees)
       let b ← Res.ofExcept (allLeaves cfg ts)
       pure (encOk [Sexp.bool b])
+  | .list [.atom "repr", s] => do
+      let sp ← evalSpec st s
+      let r ← Res.ofExcept (toString stdNames sp)
+      pure (encOk [.str r])
+  | .list [.atom "eq", a, b] => do
+      let a ← evalSpec st a
+      let b ← evalSpec st b
+      let r ← Res.ofExcept (equalTo a b)
+      let r' ← Res.ofExcept (equalTo b a)
+      pure (encOk [Sexp.bool r, Sexp.bool r'])
+  | .list [.atom "hash_eq", a, b] => do
+      let a ← evalSpec st a
+      let b ← evalSpec st b
+      pure (encOk [Sexp.bool (hashInput Generated.hashSpecFields Generated.hashNodeFields a ==
+                              hashInput Generated.hashSpecFields Generated.hashNodeFields b)])
+  | .list [.atom "is_prefix", a, b, strict] => do
+      let a ← evalSpec st a
+      let b ← evalSpec st b
+      let strict ← Res.ofDec (decBool strict)
+      let r ← Res.ofExcept (isPrefix a b strict)
+      pure (encOk [Sexp.bool r])
+  | .list [.atom "flatten_up_to", s, tree] => do
+      let sp ← evalSpec st s
+      let t ← Res.ofDec (decObj tree)
+      let ls ← Res.ofExcept (flattenUpTo st.reg sp t)
+      pure (encOk (ls.map encObj))
   | .list (.atom "sort" :: keys) => do
       let ks ← Res.ofDec (decList decKey keys)
       pure (encOk [nat (sortStage ks), encKeys (totalOrderSort ks)])
